@@ -358,13 +358,12 @@ func runC03A(t *testing.T, rng *rand.Rand, rec *sim.Rec, tier string, caseNo int
 		before := x.digest()
 		tid := w.NewTID()
 		sameTID := false
-		if a, _ := x.m.Alloc(c); a != nil && method == wire.MethodAllocate && state != "no-allocation" && rng.Intn(3) != 0 {
+		if a, _ := x.m.Alloc(c); a != nil && method == wire.MethodAllocate && state != "no-allocation" && defect != "other-user" && rng.Intn(3) != 0 {
 			// the transaction id of the Allocate that made the standing allocation: a repeat of it
 			// is only a retransmission if it also authenticates
+			// (not with another user's valid credentials: the statement ties only the other methods
+			// to the allocation's creator)
 			tid, sameTID = a.AllocTID, true
-			if defect == "other-user" {
-				valid = true // (the statement ties only the other methods to the allocation's creator)
-			}
 		}
 		raw := c03Build(method, tid, x.attrsFor(method, p2, 0x4002), cr)
 		r := x.send(c, method, raw, tid)
